@@ -146,6 +146,10 @@ def engines():
     E['two-weekly'] = [A('ta', 'a', ev=[{'dow': 2, 'time': t0}]), A('tb', 'b', ev=[{'dow': 4, 'time': t0}])]
     E['boot-pair'] = [A('ta', 'a', ev=[{'boot': True}]), A('ta', 'b', ev=[{'boot': True}])]
     E['boot+weekly'] = [A('ta', 'a', ev=[{'boot': True}, {'dow': 2, 'time': t0}])]
+    # the non-recurring event is the LAST one defer() looks at
+    E['weekly+boot'] = [A('ta', 'a', ev=[{'dow': 2, 'time': t0}, {'boot': True}])]
+    E['weekly,boot-other-node'] = [A('ta', 'a', ev=[{'dow': 2, 'time': t0}]),
+                                   A('ta', 'b', ev=[{'boot': True}])]
     return {k: {'style': 'legacy', 'algs': v} for k, v in E.items()}
 
 
